@@ -36,10 +36,15 @@ use std::{
     ops::{Deref, DerefMut},
     sync::{
         atomic::{AtomicIsize, AtomicUsize, Ordering},
-        Arc, Mutex, Weak,
+        Arc, Weak,
     },
     time::Duration,
 };
+
+#[cfg(deadpool_verif)]
+use crate::verif::Mutex;
+#[cfg(not(deadpool_verif))]
+use std::sync::Mutex;
 
 use tokio::sync::{Semaphore, TryAcquireError};
 
@@ -406,7 +411,7 @@ impl<T> Pool<T> {
     #[doc(hidden)]
     #[must_use]
     pub fn verif_snapshot(&self) -> crate::verif::UnmanagedSnapshot {
-        let queue = self.inner.queue.lock().unwrap();
+        let queue = self.inner.queue.lock_quietly().unwrap();
         crate::verif::UnmanagedSnapshot {
             permits: self.inner.semaphore.available_permits(),
             size_permits: self.inner.size_semaphore.available_permits(),
@@ -421,7 +426,7 @@ impl<T> Pool<T> {
     #[cfg(deadpool_verif)]
     #[doc(hidden)]
     pub fn verif_queue(&self, mut f: impl FnMut(&T)) {
-        let queue = self.inner.queue.lock().unwrap();
+        let queue = self.inner.queue.lock_quietly().unwrap();
         for obj in queue.iter() {
             f(obj);
         }
